@@ -672,6 +672,9 @@ func (h *rzHarness) snapshot(name string) string {
 			li = ":L"
 		}
 		cid := h.canonStream(s, st.id)
+		if h.stateless && st.id != "" && h.owner[st.id] == nil {
+			h.owner[st.id] = s // (2026-07-28 streams are not Opened in the store: first seen here)
+		}
 		rows = append(rows, row{cid, fmt.Sprintf("%s:%s:%s:%d:%s:%s%s", cid, att, op, st.lastIdx, strings.Join(reqs, ","), js, li)})
 		st.mu.Unlock()
 	}
@@ -1127,5 +1130,654 @@ func TestVerifResumeDebug(t *testing.T) {
 	rzRunCase(t, out, "dbg", ops, func(op, obs string) []string { return []string{"dbg"} })
 }
 
-var _ = rand.Int
 var _ = jsonrpc.ID{}
+
+// ---------------------------------------------------------------------------------------------
+// generator: adaptive (it looks at the implementation's observations to choose valid next ops), seeded
+// only by VERIF_SEED.  What it produced is a literal op list, so a replay needs no generator.
+
+type rzGReq struct {
+	id        int
+	x         int // exchange of the POST
+	responded bool
+}
+
+type rzGStream struct {
+	napp int // appends seen (ids t_0 … t_(napp-1) have been issued)
+	att  int // exchange attached (0 = none)
+	open bool
+	reqs int // outstanding requests
+}
+
+type rzGSess struct {
+	name     string
+	reqs     []*rzGReq
+	streams  map[string]*rzGStream
+	calls    []string // pending server->client calls (tags)
+	gone     bool     // deleted / killed / closed
+	newProto bool
+	listen   bool
+	postX    int // stateless: the POST exchange
+}
+
+type rzGen struct {
+	rng       *rand.Rand
+	h         *rzHarness
+	out       *verifOut
+	cs        string
+	prop      string
+	stateless bool
+	jsonMode  bool
+	store     bool
+	sess      []*rzGSess
+	hang      map[int]string // hanging exchange -> session
+	nex       int
+	serial    int
+	nsess     int
+	ntool     int
+	maxSess   int
+	idReuse   bool // also generate in-request stragglers after a within-session id reuse
+	// coverage of the case
+	cuts, resumes, races int
+}
+
+func (g *rzGen) find(name string) *rzGSess {
+	for _, s := range g.sess {
+		if s.name == name {
+			return s
+		}
+	}
+	return nil
+}
+
+func (g *rzGen) stream(s *rzGSess, t string) *rzGStream {
+	st := s.streams[t]
+	if st == nil {
+		st = &rzGStream{}
+		s.streams[t] = st
+	}
+	return st
+}
+
+// absorb updates the generator's view from the implementation's observation.
+func (g *rzGen) absorb(obs string) {
+	for _, t := range strings.Fields(obs) {
+		switch {
+		case strings.HasPrefix(t, "a:"):
+			f := strings.SplitN(t, ":", 4)
+			if len(f) == 4 {
+				if s := g.find(f[1]); s != nil {
+					g.stream(s, f[2]).napp++
+				}
+			}
+		case strings.HasPrefix(t, "x") && strings.HasSuffix(t, "."):
+			n, _ := strconv.Atoi(strings.Trim(t, "x."))
+			delete(g.hang, n)
+		case strings.HasPrefix(t, "x") && !strings.ContainsAny(t, "+!/") && strings.Count(t, ":") == 1:
+			f := strings.Split(t, ":")
+			n, _ := strconv.Atoi(strings.TrimPrefix(f[0], "x"))
+			if n > g.nex {
+				g.nex = n
+			}
+		case strings.HasPrefix(t, "S") && strings.Contains(t, "["):
+			name := t[1:strings.Index(t, "[")]
+			s := g.find(name)
+			if s == nil {
+				continue
+			}
+			body := t[strings.Index(t, "[")+1:]
+			if strings.HasSuffix(body, "D") {
+				s.gone = true
+				body = strings.TrimSuffix(body, "D")
+			}
+			body = strings.TrimSuffix(body, "]")
+			rows, _, _ := strings.Cut(body, "|")
+			seen := map[string]bool{}
+			for _, r := range strings.Split(rows, ";") {
+				f := strings.Split(r, ":")
+				if len(f) < 6 {
+					continue
+				}
+				st := g.stream(s, f[0])
+				seen[f[0]] = true
+				st.att = 0
+				if strings.HasPrefix(f[1], "x") {
+					st.att, _ = strconv.Atoi(f[1][1:])
+				}
+				st.open = f[2] == "o"
+				st.reqs = 0
+				if f[4] != "" {
+					st.reqs = len(strings.Split(f[4], ","))
+				}
+			}
+			for name, st := range s.streams {
+				if !seen[name] {
+					st.att, st.open, st.reqs = 0, false, 0
+				}
+			}
+		}
+	}
+}
+
+func (g *rzGen) do(op string, tags ...string) string {
+	toks := strings.Fields(op)
+	before := g.nex
+	obs := g.h.apply(toks)
+	g.absorb(obs)
+	// exchanges opened by this op that did not end are hanging
+	for _, t := range strings.Fields(obs) {
+		if strings.HasPrefix(t, "x") && !strings.ContainsAny(t, "+!/.") && strings.Count(t, ":") == 1 {
+			f := strings.Split(t, ":")
+			n, _ := strconv.Atoi(strings.TrimPrefix(f[0], "x"))
+			if n > before && !strings.Contains(obs, fmt.Sprintf("x%d.", n)) {
+				sess := ""
+				if len(toks) > 1 {
+					sess = toks[1]
+				}
+				if toks[0] == "racewg" || toks[0] == "racegw" {
+					sess = toks[1]
+				}
+				g.hang[n] = sess
+			}
+		}
+	}
+	g.out.line(g.cs, op, obs, append([]string{toks[0]}, tags...)...)
+	return obs
+}
+
+func (g *rzGen) pick(n int) int { return g.rng.Intn(n) }
+func (g *rzGen) chance(pct int) bool { return g.rng.Intn(100) < pct }
+
+func (g *rzGen) version() string { return []string{"-", "a", "b", "c", "c"}[g.pick(5)] }
+
+func (g *rzGen) budget() string {
+	if g.chance(10) {
+		return fmt.Sprintf(" b=%d", g.pick(3))
+	}
+	return ""
+}
+
+func (g *rzGen) liveSess() []*rzGSess {
+	var l []*rzGSess
+	for _, s := range g.sess {
+		if !s.gone {
+			l = append(l, s)
+		}
+	}
+	return l
+}
+
+func (s *rzGSess) parked() []*rzGReq {
+	var l []*rzGReq
+	for _, r := range s.reqs {
+		if !r.responded {
+			l = append(l, r)
+		}
+	}
+	return l
+}
+
+func (g *rzGen) newSession() {
+	g.nsess++
+	name := fmt.Sprintf("s%d", g.nsess)
+	s := &rzGSess{name: name, streams: map[string]*rzGStream{}}
+	g.sess = append(g.sess, s)
+	v := []string{"a", "b", "c", "c"}[g.pick(4)]
+	g.do(fmt.Sprintf("init %s id=0 v=%s%s", name, v, g.budget()))
+	if g.chance(50) {
+		g.do(fmt.Sprintf("note %s hv=%s", name, g.version()))
+	}
+}
+
+func (g *rzGen) call(s *rzGSess) {
+	hv := g.version()
+	// ids from a small pool: reused across sessions, over time and (deliberately, sometimes) while in flight
+	id := 1 + g.pick(4)
+	inflight := map[int]bool{}
+	for _, r := range s.parked() {
+		inflight[r.id] = true
+	}
+	if inflight[id] && !g.chance(25) {
+		for k := 1; k <= 6; k++ {
+			if !inflight[k] {
+				id = k
+				break
+			}
+		}
+	}
+	ids := []int{id}
+	if (hv == "-" || hv == "a") && g.chance(30) {
+		id2 := 1 + g.pick(6)
+		if id2 != id {
+			ids = append(ids, id2)
+		}
+	}
+	dup := false
+	var idtxt []string
+	for _, i := range ids {
+		dup = dup || inflight[i]
+		idtxt = append(idtxt, strconv.Itoa(i))
+	}
+	x := g.nex + 1
+	tag := "call"
+	if dup {
+		tag = "call-dup"
+	} else if len(ids) > 1 {
+		tag = "call-batch"
+	}
+	g.do(fmt.Sprintf("call %s ids=%s hv=%s%s", s.name, strings.Join(idtxt, ","), hv, g.budget()), tag)
+	if !dup {
+		for _, i := range ids {
+			s.reqs = append(s.reqs, &rzGReq{id: i, x: x})
+		}
+	}
+}
+
+func (g *rzGen) statelessCall() {
+	g.nsess++
+	name := fmt.Sprintf("q%d", g.nsess)
+	s := &rzGSess{name: name, streams: map[string]*rzGStream{}, postX: g.nex + 1}
+	g.sess = append(g.sess, s)
+	if g.chance(15) {
+		s.newProto, s.listen = true, true
+		// (no write budget here: a failed acknowledgement makes the listen handler give up — E14's business)
+		g.do(fmt.Sprintf("listen %s id=%d", name, 1+g.pick(4)), "listen")
+		return
+	}
+	hv := []string{"-", "a", "b", "c", "c", "d"}[g.pick(6)]
+	s.newProto = hv == "d"
+	id := 1 + g.pick(4)
+	g.do(fmt.Sprintf("call %s ids=%d hv=%s%s", name, id, hv, g.budget()), "call-stateless")
+	s.reqs = append(s.reqs, &rzGReq{id: id, x: s.postX})
+}
+
+func (g *rzGen) emit(s *rzGSess, r *rzGReq) {
+	g.serial++
+	kind := "N"
+	if g.chance(25) {
+		kind = "C"
+	}
+	flag := "c"
+	if g.chance(35) {
+		flag = "d"
+	}
+	if r.responded && flag == "c" && !g.idReuse {
+		// A straggler that still uses the context of a finished request is rejected by the server —
+		// unless the client has meanwhile reused that request id for a new request of the same session
+		// (which the protocol forbids): then it lands on the new request's stream.  Only generated
+		// with VERIF_RESUME_IDREUSE=1.
+		for _, q := range s.reqs {
+			if q != r && q.id == r.id && q.x > r.x {
+				flag = "d"
+			}
+		}
+	}
+	tag := fmt.Sprintf("%s.%d.x%d.%s.%d", s.name, r.id, r.x, flag, g.serial)
+	t := "emit-" + kind + flag
+	if r.responded {
+		t += "-after-response"
+	}
+	obs := g.do(fmt.Sprintf("emit %s %d x%d %s %s %d", s.name, r.id, r.x, kind, flag, g.serial), t)
+	if kind == "C" && strings.HasSuffix(obs, "w=pending") {
+		s.calls = append(s.calls, tag)
+	}
+}
+
+// issued picks a previously issued event id of some stream of s (preferring detached / finished streams).
+func (g *rzGen) issued(s *rzGSess) (string, bool) {
+	var names []string
+	for n, st := range s.streams {
+		if st.napp > 0 {
+			names = append(names, n)
+		}
+	}
+	if len(names) == 0 {
+		return "", false
+	}
+	sort.Strings(names)
+	// prefer streams that nobody is attached to
+	var free []string
+	for _, n := range names {
+		if s.streams[n].att == 0 {
+			free = append(free, n)
+		}
+	}
+	if len(free) > 0 && g.chance(85) {
+		names = free
+	}
+	n := names[g.pick(len(names))]
+	return fmt.Sprintf("%s_%d", n, g.pick(s.streams[n].napp)), true
+}
+
+func (g *rzGen) get(s *rzGSess) string {
+	hv := g.version()
+	last := "none"
+	tag := "get-standalone"
+	switch r := g.pick(100); {
+	case r < 62 && g.store:
+		if id, ok := g.issued(s); ok {
+			last, tag = id, "get-resume"
+		}
+	case r < 66:
+		last, tag = "bad", "get-bad"
+	case r < 70:
+		last, tag = "t9_0", "get-unknown-stream"
+	}
+	if tag == "get-resume" {
+		g.resumes++
+	}
+	return fmt.Sprintf("get %s hv=%s last=%s%s", s.name, hv, last, g.budget()) + "\x00" + tag
+}
+
+func (g *rzGen) hangingOf(s *rzGSess) []int {
+	var l []int
+	for n, name := range g.hang {
+		if name == s.name {
+			l = append(l, n)
+		}
+	}
+	sort.Ints(l)
+	return l
+}
+
+func (g *rzGen) stepStateful() {
+	live := g.liveSess()
+	if len(live) == 0 || (len(g.sess) < g.maxSess && g.chance(12)) {
+		if len(g.sess) < g.maxSess {
+			g.newSession()
+			return
+		}
+		if len(live) == 0 {
+			// every session is gone: requests to a closed session are answered 404
+			s := g.sess[g.pick(len(g.sess))]
+			if g.chance(50) {
+				g.do(fmt.Sprintf("get %s hv=c last=none", s.name), "gone-404")
+			} else {
+				g.do(fmt.Sprintf("call %s ids=1 hv=c", s.name), "gone-404")
+			}
+			return
+		}
+	}
+	s := live[g.pick(len(live))]
+	parked := s.parked()
+	hanging := g.hangingOf(s)
+	r := g.pick(100)
+	switch {
+	case r < 14:
+		if len(parked) < 4 {
+			g.call(s)
+			return
+		}
+		fallthrough
+	case r < 38:
+		if len(s.reqs) > 0 {
+			var q *rzGReq
+			if len(parked) > 0 && !g.chance(12) {
+				q = parked[g.pick(len(parked))]
+			} else {
+				q = s.reqs[g.pick(len(s.reqs))]
+			}
+			g.emit(s, q)
+			return
+		}
+		g.call(s)
+	case r < 50:
+		if len(parked) > 0 {
+			q := parked[g.pick(len(parked))]
+			q.responded = true
+			g.do(fmt.Sprintf("resp %s %d x%d", s.name, q.id, q.x))
+			return
+		}
+		g.call(s)
+	case r < 62:
+		if len(hanging) > 0 {
+			g.cuts++
+			g.do(fmt.Sprintf("cut x%d %s", hanging[g.pick(len(hanging))], s.name))
+			return
+		}
+		g.call(s)
+	case r < 66:
+		if len(hanging) > 0 {
+			g.do(fmt.Sprintf("wfail x%d %s", hanging[g.pick(len(hanging))], s.name))
+			return
+		}
+		fallthrough
+	case r < 84:
+		// race a write with a resume when possible
+		if g.store && len(parked) > 0 && g.chance(30) {
+			q := parked[g.pick(len(parked))]
+			if id, ok := g.issued(s); ok {
+				g.serial++
+				g.races++
+				g.resumes++
+				op := "racewg"
+				if g.chance(50) {
+					op = "racegw"
+				}
+				flag := "c"
+				if g.chance(30) {
+					flag = "d"
+				}
+				g.do(fmt.Sprintf("%s %s %d x%d N %s %d | %s hv=%s last=%s", op, s.name, q.id, q.x, flag, g.serial, s.name, g.version(), id), op)
+				return
+			}
+		}
+		optag := strings.SplitN(g.get(s), "\x00", 2)
+		g.do(optag[0], optag[1])
+	case r < 88:
+		if len(parked) > 0 {
+			q := parked[g.pick(len(parked))]
+			g.do(fmt.Sprintf("sclose %s %d x%d retry=%d", s.name, q.id, q.x, g.pick(2)))
+			return
+		}
+		g.call(s)
+	case r < 92:
+		if len(s.calls) > 0 {
+			i := g.pick(len(s.calls))
+			tag := s.calls[i]
+			s.calls = append(s.calls[:i], s.calls[i+1:]...)
+			// tag = <sess>.<req>.x<post>.<c|d>.<serial>: cancelling an in-request call is a straggler too (see emit)
+			f := strings.Split(tag, ".")
+			reused := false
+			if len(f) == 5 && f[3] == "c" && !g.idReuse {
+				id, _ := strconv.Atoi(f[1])
+				px, _ := strconv.Atoi(strings.TrimPrefix(f[2], "x"))
+				for _, q := range s.reqs {
+					if q.id == id && q.x > px {
+						reused = true
+					}
+				}
+			}
+			if reused || g.chance(50) {
+				g.do(fmt.Sprintf("answer %s %s", s.name, tag))
+			} else {
+				g.do(fmt.Sprintf("cancelcall %s %s", s.name, tag))
+			}
+			return
+		}
+		g.call(s)
+	case r < 93:
+		g.do(fmt.Sprintf("note %s hv=%s", s.name, g.version()))
+	case r < 95:
+		g.ntool++
+		names := []string{}
+		for _, x := range g.sess {
+			names = append(names, x.name)
+		}
+		g.do(fmt.Sprintf("toolchange %d %s", g.ntool, strings.Join(names, " ")))
+	case r < 97:
+		// DELETE waits for handlers and pending calls: only when there are none
+		if len(parked) == 0 && len(s.calls) == 0 {
+			g.do("delete " + s.name)
+			s.gone = true
+			return
+		}
+		g.call(s)
+	default:
+		if g.chance(40) {
+			g.do("kill " + s.name)
+			s.gone = true
+			s.calls = nil
+			for _, q := range s.reqs {
+				q.responded = true
+			}
+			return
+		}
+		g.call(s)
+	}
+}
+
+func (g *rzGen) stepStateless() {
+	live := g.liveSess()
+	if len(live) == 0 || (len(live) < g.maxSess && g.chance(25)) {
+		g.statelessCall()
+		return
+	}
+	s := live[g.pick(len(live))]
+	parked := s.parked()
+	hanging := g.hangingOf(s)
+	r := g.pick(100)
+	switch {
+	case r < 40 && len(s.reqs) > 0:
+		g.emit(s, s.reqs[g.pick(len(s.reqs))])
+	case r < 60 && len(parked) > 0:
+		q := parked[0]
+		q.responded = true
+		g.do(fmt.Sprintf("resp %s %d x%d", s.name, q.id, q.x))
+	case r < 70 && len(hanging) > 0 && !s.listen:
+		// (a cut of a subscriptions/listen exchange races the handler's final result with the release: not generated)
+		g.cuts++
+		g.do(fmt.Sprintf("cut x%d %s", hanging[0], s.name))
+	case r < 75 && len(hanging) > 0:
+		g.do(fmt.Sprintf("wfail x%d %s", hanging[0], s.name))
+	case r < 80 && len(parked) > 0:
+		g.do(fmt.Sprintf("sclose %s %d x%d retry=%d", s.name, parked[0].id, parked[0].x, g.pick(2)))
+	case r < 84:
+		g.do(fmt.Sprintf("get %s hv=c last=none", s.name), "get-405")
+	case r < 94:
+		g.ntool++
+		names := []string{}
+		for _, x := range g.sess {
+			names = append(names, x.name)
+		}
+		g.do(fmt.Sprintf("toolchange %d %s", g.ntool, strings.Join(names, " ")))
+	default:
+		g.statelessCall()
+	}
+}
+
+func rzFlush(out *verifOut) {
+	out.mu.Lock()
+	out.w.Flush()
+	out.mu.Unlock()
+}
+
+// rzGenCase runs one generated scenario in its own bubble.
+func rzGenCase(t *testing.T, out *verifOut, c int, prop string) (cuts, resumes, races int) {
+	rng := verifRng(int64(c))
+	cs := fmt.Sprintf("g%d", c)
+	synctest.Test(t, func(t *testing.T) {
+		g := &rzGen{rng: rng, out: out, cs: cs, prop: prop, hang: map[int]string{}, idReuse: os.Getenv("VERIF_RESUME_IDREUSE") == "1"}
+		// configuration: C08 concentrates on stateful SSE with a store; C10 spreads over the matrix
+		r := rng.Intn(100)
+		if prop == "C10" {
+			g.stateless = r%4 == 0
+			g.jsonMode = (r/4)%3 == 0
+			g.store = (r/12)%3 != 0
+			g.maxSess = 1 + rng.Intn(4)
+		} else {
+			g.stateless = r >= 92
+			g.jsonMode = r >= 80 && r < 88
+			g.store = !(r >= 88 && r < 92)
+			g.maxSess = 1 + rng.Intn(2)
+		}
+		if g.stateless {
+			g.maxSess = 1 + rng.Intn(4)
+		}
+		mode, resp, st := "stateful", "sse", "store"
+		if g.stateless {
+			mode = "stateless"
+		}
+		if g.jsonMode {
+			resp = "json"
+		}
+		if !g.store {
+			st = "nostore"
+		}
+		out.line(cs, "reset", "ok", "reset")
+		g.h = rzNewHarness(t, g.stateless, g.jsonMode, g.store)
+		out.line(cs, fmt.Sprintf("cfg %s %s %s", mode, resp, st), "ok", "cfg", "cfg-"+mode+"-"+resp+"-"+st)
+		n := 8 + rng.Intn(28)
+		for i := 0; i < n; i++ {
+			if g.stateless {
+				g.stepStateless()
+			} else {
+				g.stepStateful()
+			}
+		}
+		var tags []string
+		if g.cuts > 0 {
+			tags = append(tags, "case-with-cut")
+		}
+		if g.resumes >= 2 {
+			tags = append(tags, "case-with-2+-resumes")
+		}
+		if g.resumes >= 1 {
+			tags = append(tags, "case-with-resume")
+		}
+		if g.races > 0 {
+			tags = append(tags, "case-with-race")
+		}
+		if len(g.sess) > 1 {
+			tags = append(tags, "case-multi-session")
+		}
+		out.line(cs, "endcase", "ok", append([]string{"endcase"}, tags...)...)
+		cuts, resumes, races = g.cuts, g.resumes, g.races
+		g.h.finish()
+	})
+	rzFlush(out)
+	return
+}
+
+func rzReplayFile(t *testing.T, out *verifOut, path, cs string) {
+	b, err := os.ReadFile(path)
+	if err != nil {
+		t.Fatal(err)
+	}
+	var ops []string
+	for _, ln := range strings.Split(string(b), "\n") {
+		ln = strings.TrimSpace(ln)
+		if ln == "" || strings.HasPrefix(ln, "#") || ln == "reset" || ln == "endcase" {
+			continue
+		}
+		ops = append(ops, ln)
+	}
+	rzRunCase(t, out, cs, ops, func(op, obs string) []string { return []string{"corpus", strings.Fields(op)[0]} })
+	rzFlush(out)
+}
+
+func TestVerifResume(t *testing.T) {
+	out := verifOpen(t)
+	defer out.close()
+	prop := os.Getenv("VERIF_PROPERTY")
+	if p := os.Getenv("VERIF_REPLAY"); p != "" {
+		rzReplayFile(t, out, p, "replay")
+		return
+	}
+	if p := os.Getenv("VERIF_CORPUS"); p != "" {
+		ents, _ := os.ReadDir(p)
+		for _, e := range ents {
+			if strings.HasSuffix(e.Name(), ".ops") {
+				rzReplayFile(t, out, p+"/"+e.Name(), "corpus-"+strings.TrimSuffix(e.Name(), ".ops"))
+			}
+		}
+	}
+	n := verifN(1200, 40000)
+	salt := 0
+	if prop == "C10" {
+		salt = 500000
+	}
+	for c := 0; c < n; c++ {
+		rzGenCase(t, out, salt+c, prop)
+	}
+}
